@@ -19,7 +19,7 @@ ASSUMPTIONS = ["monitors read public accessors only", "remove_elements may drop 
 SUMMARY_KEYS = ["histories", "ops", "invariant_evaluations", "mutations_shrinking_universe", "mutations_raising"]
 THOROUGH_SCALE = 3
 CRASH_IS_VIOLATION = False
-OPS = ["remove_subset", "remove_subset", "remove_nonmember", "remove_mixed", "remove_all", "rate", "rate", "remove_empty",
+OPS = ["eq_model", "remove_subset", "remove_subset", "remove_nonmember", "remove_mixed", "remove_all", "rate", "rate", "remove_empty",
        "unified_rankings", "unified_dataset", "sub_elements", "sub_ids", "algorithm", "from_string"]
 ALGS = ["Borda", "PickAPerm", "BioConsert", "KwikSort", "Copeland", "BioCo"]
 
@@ -253,6 +253,17 @@ def check_case(case, ctx):
                 for r in cons.consensus_rankings:
                     if not check_ranking_obj(ctx, case, step, r, "consensus:" + cfg):
                         return
+        elif op == "eq_model":
+            # the dataset must compare equal to a fresh dataset built from the model (its current content)
+            if ref.universe(model):
+                fresh = libx.mk_dataset(model)
+                st, eq = call(lambda: (d == fresh, fresh == d))
+                ctx.count("eq_with_fresh_model")
+                if st == "ok" and eq != (True, True):
+                    ctx.violation("C16/dataset-not-equal-to-fresh-copy-of-its-content", f"step {step}: the dataset "
+                                  f"{real_state(d)} compares {eq} with a fresh dataset built from the same rankings",
+                                  {**case, "failed_step": step}, observed=list(eq), expected=[True, True])
+                    return
         elif op == "from_string":
             r0 = rng.choice(model) if model else []
             text = str([set(b) for b in r0]) if r0 else "[]"
